@@ -184,3 +184,7 @@ func nearBases(passes []passT) []passT {
 var nearQuickBases = map[string]bool{"empty": true, "unicode": true, "long-1": true, "padded( Tr0ub4dor&3 LF)": true}
 
 const nearQuickKeybaseBase = "long-1"
+
+// quick tier, keybase: besides the first variant of every group
+var nearQuickKeybaseVariants = map[string]bool{"trailing space": true, "trailing LF": true, "trailing CRLF": true, "trailing NUL": true,
+	"trailing U+00A0 NBSP": true, "leading space": true, "leading LF": true, "strings.ToLower": true, "truncated by one byte": true}
